@@ -44,8 +44,14 @@ RUNS_TR = {'pass', 'failout', 'failexc', 'partskip', 'expexc', 'ell', 'igws', 'w
            'latecommentfail', 'skipthenrun', 'pytestskip'}
 
 
+NAMES = None       # a spec may install another naming scheme for the duration of one case
+COMMAND_NAMES = ['all', 'list', 'dump', 'f']
+
+
 def fname(j):
     """names are suffixes of each other on purpose (f, xf, xxf, ...): naming one doctest must select exactly it"""
+    if NAMES:
+        return NAMES[j]
     return 'x' * j + 'f'
 
 
